@@ -112,9 +112,14 @@ LockBranch(sl, lockedPrev, pwmF, tqF, against) ==
   IF sl /\ (RSign(pwmF) = 0 \/ against) THEN TRUE
   ELSE IF tqF # SNull /\ RSign(tqF) # 0 /\ RSign(tqF) = RSign(pwmF) THEN FALSE
   ELSE lockedPrev
+SpeedFloor == "1e-299"
 LockSet(sl, lockedPrev, pwmF, tqF, w, wscale, band) ==
   LET against == (RSign(pwmF) > 0 /\ RSign(w) < 0) \/ (RSign(pwmF) < 0 /\ RSign(w) > 0)
-      unsure == RSign(pwmF) # 0 /\ RLe(RAbs(w), RMul(band, wscale)) /\ RSign(wscale) > 0 IN
+      \* within rounding distance of zero: relative to the condition scale, or below the absolute floor under which the
+      \* quantity comparisons of the implementation call two values equal (1e-300 in the operand's own unit, at most 1e-299
+      \* in SI for every angular-speed unit); not used when traces are judged AT their thresholds (band < 0)
+      unsure == RSign(pwmF) # 0 /\ ( (RLe(RAbs(w), RMul(band, wscale)) /\ RSign(wscale) > 0)
+                                      \/ (RSign(band) > 0 /\ RSign(w) # 0 /\ RLe(RAbs(w), SpeedFloor)) ) IN
   IF unsure THEN {LockBranch(sl, lockedPrev, pwmF, tqF, TRUE), LockBranch(sl, lockedPrev, pwmF, tqF, FALSE)}
   ELSE {LockBranch(sl, lockedPrev, pwmF, tqF, against)}
 \* the property as stated: recorded motor speed never has the sign opposite to the duty cycle in force
